@@ -24,7 +24,7 @@ def pipe(text, technique, design):
 
 
 CLAIMED.update({
-    "C01": pipe("Theorems: a VOk verdict of the in-Coq comparison means equal names and equal rows (sequence when the pipeline fixes the order, multiset otherwise) w.r.t. ONE reference semantics evaluated on the real resolved AST of each backend; hence both backends agree. SQL compile correctness (sql_compile_correct): for every database and every AST of the single-SELECT fragment (flat_ok: source, select, rename, element-wise mutate / filter, mutate with window / aggregate functions incl. partition_by and arrange=, group_by, one summarize with HAVING-filters and mutates after it, one arrange, slice_head chains, unions and inner joins of such pipelines) the SELECT denoted by the transcription of SqlImpl.compile_ast returns exactly the reference table; Polars compile correctness (polars_compile_correct) for the transcription of the Polars compile_ast incl. rename_overwritten_cols; backends_agree: on the common fragment the SQL statement and the Polars plan denote the same table for all data. Tie: L1 on typed random pipelines over all verbs (joins, unions, windows, aggregates, all data shapes incl. tall tables with long null prefixes) on Polars and SQLite + L2 metadata traces + L3 (Model/SqlCompile.compile = real SqlImpl.compile_ast: Query record, labels, scope; Model/PlCompile.pl_compile = real Polars compile_ast: select, partition_by, name_in_df, schema; on every single-source case; share of cases inside the fragments reported). PARTIAL: outside the fragments (plain alias() with re-numbered column identities, joins with computed columns on a padded side; for SQL also several arranges, filters after an arrange) equality of the backends is decided per case by L1.",
+    "C01": pipe("Theorems: a VOk verdict of the in-Coq comparison means equal names and equal rows (sequence when the pipeline fixes the order, multiset otherwise) w.r.t. ONE reference semantics evaluated on the real resolved AST of each backend; hence both backends agree. SQL compile correctness (sql_compile_correct): for every database and every AST of the single-SELECT fragment (flat_ok: source, select, rename, element-wise mutate / filter, mutate with window / aggregate functions incl. partition_by and arrange=, group_by, one summarize with HAVING-filters and mutates after it, one arrange, slice_head chains, unions and inner joins of such pipelines) the SELECT denoted by the transcription of SqlImpl.compile_ast returns exactly the reference table; Polars compile correctness (polars_compile_correct) for the transcription of the Polars compile_ast incl. rename_overwritten_cols; backends_agree: on the common fragment the SQL statement and the Polars plan denote the same table for all data. Tie: L1 on typed random pipelines over all verbs (joins, unions, windows, aggregates, all data shapes incl. tall tables with long null prefixes) on Polars and SQLite + L2 metadata traces + L3 (Model/SqlCompile.compile = real SqlImpl.compile_ast: Query record, labels, scope; Model/PlCompile.pl_compile = real Polars compile_ast: select, partition_by, name_in_df, schema; on every single-source case; share of cases inside the fragments reported). PARTIAL: outside the fragments (SQL: a plain alias() that is NOT followed by a subquery marker, joins with computed columns on a padded side; for SQL also several arranges, filters after an arrange) equality of the backends is decided per case by L1.",
                 "Rocq: reference semantics + comparison soundness theorems; differential correspondence of both backends against the reference evaluated by vm_compute", "5 / C01"),
     "C02": pipe("Theorems (all tables, all expressions): select/drop only hide, rename only renames, mutate is simultaneous and keeps overwritten columns readable through their uid, filter keeps exactly the true rows in order, slice_head spec and the chain law, group_by/ungroup/alias change no data. Tie: L1 on row-verb pipelines on both backends.",
                 "Rocq: theorems on the reference semantics of the row verbs (induction over definitions, firstn/skipn algebra); differential correspondence", "5 / C02"),
